@@ -288,8 +288,7 @@ Proof.
   intros HI H. apply step_inv in H.
   destruct H as [He Ho ->|He Ho ->|He Hq ->|Hc|g s1 Hg Hl Hr Ho Hp|g s1 Hg Hl Hr Ho Hnp Hd
                 |g s1 Hg Hl Hr Ho Hnp Hnd Ha|g s1 Hg Hl Hr Ho Hc|He Hc|g He Ho ->].
-  - destruct HI as [I1 I2 I3 I4 I5 I6 I7]. constructor; bcsimpl; try exact I; try constructor; try discriminate.
-    + exact I6.
+  - destruct HI as [I1 I2 I3 I4 I5 I6 I7]. constructor; bcsimpl; try exact I; try exact I6; try constructor; try discriminate; reflexivity.
   - exact HI.
   - exact HI.
   - apply step_clo_sum in Hc as (_ & Hs & _ & Ha & Hq).
